@@ -4,6 +4,8 @@ From V.model Require Import CoreProps.
 From V.proofs Require Import Prelude_proofs Calendar_proofs.
 From Coq Require Import ZifyBool.
 
+Ltac Zify.zify_post_hook ::= Z.to_euclidean_division_equations.
+
 (** ---- properties ---- *)
 
 Lemma prop_eqb_eq p q : prop_eqb p q = true <-> p = q.
@@ -81,6 +83,9 @@ Qed.
 
 (** ---- dec_of_N ---- *)
 
+Lemma digit_sub r : Z.of_N (48 + r - 48) = Z.of_N r.
+Proof. lia. Qed.
+
 Lemma ddf_spec fuel : forall n acc, (n < 2 ^ N.of_nat fuel)%N -> (0 < fuel)%nat ->
   forallb is_digit acc = true ->
   forallb is_digit (dec_digits_fuel fuel n acc) = true /\
@@ -90,11 +95,12 @@ Proof.
   induction fuel as [|f IH]; intros n acc Hn Hf Ha; [lia|].
   cbn [dec_digits_fuel].
   assert (Hdig : is_digit (48 + n mod 10) = true).
-  { unfold is_digit. assert (n mod 10 < 10)%N by (apply N.mod_upper_bound; discriminate). lia. }
+  { unfold is_digit. assert (Hr : (n mod 10 < 10)%N) by (apply N.mod_upper_bound; discriminate).
+    revert Hr. generalize (n mod 10)%N. intros r Hr. lia. }
   destruct (N.ltb_spec n 10) as [Hlt|Hge].
   - split; [cbn [forallb]; rewrite Hdig, Ha; reflexivity|]. split; [discriminate|].
     change (dval ((48 + n mod 10)%N :: acc) 0) with (dval acc (10 * 0 + Z.of_N (48 + n mod 10 - 48))%Z).
-    rewrite dval_shift. rewrite N.mod_small by lia. lia.
+    rewrite dval_shift, digit_sub. rewrite N.mod_small by lia. lia.
   - assert (Hf' : (0 < f)%nat).
     { destruct f; [|lia]. change (2 ^ N.of_nat 1)%N with 2%N in Hn. lia. }
     assert (Hn' : (n / 10 < 2 ^ N.of_nat f)%N).
@@ -106,9 +112,9 @@ Proof.
     change (dval ((48 + n mod 10)%N :: acc) 0) with (dval acc (10 * 0 + Z.of_N (48 + n mod 10 - 48))%Z).
     rewrite (dval_shift acc). cbn [length]. rewrite Nat2Z.inj_succ, Z.pow_succ_r by lia.
     assert (E : n = (10 * (n / 10) + n mod 10)%N) by (apply N.div_mod; discriminate).
-    assert (E' : Z.of_N n = (10 * Z.of_N (n / 10) + Z.of_N (n mod 10))%Z) by lia.
-    replace (Z.of_N (48 + n mod 10 - 48)) with (Z.of_N (n mod 10)) by lia.
-    rewrite E'. ring.
+    assert (E' : Z.of_N n = (10 * Z.of_N (n / 10) + Z.of_N (n mod 10))%Z).
+    { rewrite E at 1. rewrite N2Z.inj_add, N2Z.inj_mul. reflexivity. }
+    rewrite digit_sub. rewrite E'. ring.
 Qed.
 
 Lemma dec_of_N_spec n :
@@ -119,4 +125,1166 @@ Proof.
   - rewrite Nat2N.inj_succ, N2Nat.id, N.pow_succ_r'.
     pose proof (N.size_gt n). lia.
   - split; auto. split; auto. rewrite C. cbn [length dval fold_left]. change (Z.of_nat 0) with 0%Z. lia.
+Qed.
+
+(** ---- spec-level text forms (used in the theorem statements) ---- *)
+
+(** YYYY-MM-DDThh:mm:ss with a four-digit zero-padded year. *)
+Definition w3c_full (t : datetime) : str :=
+  pad4 (dt_year t) ++ c_dash :: pad2 (dt_month t) ++ c_dash :: pad2 (dt_day t) ++
+  c_T :: pad2 (dt_hour t) ++ c_colon :: pad2 (dt_minute t) ++ c_colon :: pad2 (dt_second t).
+Definition w3c_date (y m d : Z) : str := pad4 y ++ c_dash :: pad2 m ++ c_dash :: pad2 d.
+Definition w3c_ym (y m : Z) : str := pad4 y ++ c_dash :: pad2 m.
+(** Zone designator: sign, hh, colon, mm. *)
+Definition off_str (neg : bool) (hh mm : Z) : str :=
+  (if neg then c_dash else c_plus) :: pad2 hh ++ c_colon :: pad2 mm.
+(** Seconds east of UTC denoted by the designator. *)
+Definition off_seconds (neg : bool) (hh mm : Z) : Z :=
+  ((if neg then -1 else 1) * (hh * 3600 + mm * 60))%Z.
+
+(** ---- digit characters ---- *)
+
+Lemma digit_char_is_digit v : (0 <= v <= 9)%Z -> is_digit (digit_char v) = true.
+Proof. unfold is_digit, digit_char. lia. Qed.
+
+Lemma digit_char_val v : (0 <= v <= 9)%Z -> udigit_val (digit_char v) = Some v.
+Proof.
+  intros H. rewrite udigit_ascii by (apply digit_char_is_digit; auto).
+  unfold digit_char. f_equal. lia.
+Qed.
+
+Lemma digit_char_udigit v : (0 <= v <= 9)%Z -> is_udigit (digit_char v) = true.
+Proof. intros H. unfold is_udigit. rewrite digit_char_val; auto. Qed.
+
+Lemma pad2_digits v : (0 <= v <= 99)%Z -> forallb is_digit (pad2 v) = true.
+Proof.
+  intros H. unfold pad2. cbn [forallb].
+  rewrite !digit_char_is_digit by lia. reflexivity.
+Qed.
+
+Lemma pad4_digits v : (0 <= v <= 9999)%Z -> forallb is_digit (pad4 v) = true.
+Proof.
+  intros H. unfold pad4. cbn [forallb].
+  rewrite !digit_char_is_digit by lia. reflexivity.
+Qed.
+
+Lemma dval_digit_char v acc : (0 <= v <= 9)%Z ->
+  (10 * acc + Z.of_N (digit_char v - 48))%Z = (10 * acc + v)%Z.
+Proof. intros H. unfold digit_char. lia. Qed.
+
+Lemma py_int_pad2 v : (0 <= v <= 99)%Z -> py_int (pad2 v) = Some v.
+Proof.
+  intros H. rewrite py_int_digits; [|apply pad2_digits; auto|discriminate|cbn; lia].
+  f_equal. unfold pad2, dval. cbn [fold_left]. rewrite !dval_digit_char by lia. lia.
+Qed.
+
+Lemma py_int_pad4 v : (0 <= v <= 9999)%Z -> py_int (pad4 v) = Some v.
+Proof.
+  intros H. rewrite py_int_digits; [|apply pad4_digits; auto|discriminate|cbn; lia].
+  f_equal. unfold pad4, dval. cbn [fold_left]. rewrite !dval_digit_char by lia. lia.
+Qed.
+
+(** glibc %Y for four-digit years. *)
+Lemma ddf_lt f n acc : (n < 10)%N -> dec_digits_fuel (S f) n acc = (48 + n mod 10)%N :: acc.
+Proof. intros H. cbn [dec_digits_fuel]. destruct (N.ltb_spec n 10); [reflexivity|lia]. Qed.
+
+Lemma ddf_ge f n acc : (10 <= n)%N ->
+  dec_digits_fuel (S f) n acc = dec_digits_fuel f (n / 10)%N ((48 + n mod 10)%N :: acc).
+Proof. intros H. cbn [dec_digits_fuel]. destruct (N.ltb_spec n 10); [lia|reflexivity]. Qed.
+
+Lemma show_year_pad4 y : (1000 <= y <= 9999)%Z -> show_year y = pad4 y.
+Proof.
+  intros H. unfold show_year, dec_of_N.
+  set (n := Z.to_N y). assert (Hn : (1000 <= n <= 9999)%N) by lia.
+  assert (Hs : (10 <= N.size n)%N).
+  { destruct (N.le_gt_cases (N.size n) 9) as [L|L]; [|lia].
+    pose proof (N.size_gt n) as G.
+    pose proof (N.pow_le_mono_r 2 (N.size n) 9 ltac:(discriminate) L) as P.
+    change (2 ^ 9)%N with 512%N in P. lia. }
+  destruct (N.to_nat (N.size n)) as [|[|[|k]]] eqn:E; try lia.
+  assert (Q1 : (100 <= n / 10 <= 999)%N) by lia.
+  assert (Q2 : (10 <= n / 10 / 10 <= 99)%N) by lia.
+  assert (Q3 : (1 <= n / 10 / 10 / 10 <= 9)%N) by lia.
+  rewrite ddf_ge by lia. rewrite ddf_ge by lia. rewrite ddf_ge by lia. rewrite ddf_lt by lia.
+  unfold pad4, digit_char. subst n.
+  repeat (f_equal; try lia).
+Qed.
+
+(** ---- the strptime matcher ---- *)
+
+Fixpoint first_alt (al : list (list cc)) (s : str) : option (str * str) :=
+  match al with
+  | [] => None
+  | a :: al' => match match_alt a s with Some x => Some x | None => first_alt al' s end
+  end.
+
+Lemma try_alts_first k al s cap r0 caps r :
+  first_alt al s = Some (cap, r0) -> k r0 = Some (caps, r) ->
+  try_alts k al s = Some (cap :: caps, r).
+Proof.
+  induction al as [|a al IH]; cbn [first_alt try_alts]; [discriminate|].
+  destruct (match_alt a s) as [[c0 r1]|].
+  - intros E K. inversion E; subst. rewrite K. reflexivity.
+  - auto.
+Qed.
+
+Lemma match_alt_app a : forall s rest, (length a <= length s)%nat ->
+  match_alt a (s ++ rest) =
+  match match_alt a s with Some (cap, r') => Some (cap, r' ++ rest) | None => None end.
+Proof.
+  induction a as [|k a IH]; intros s rest L.
+  - reflexivity.
+  - destruct s as [|c s]; [cbn in L; lia|]. cbn [match_alt app].
+    destruct (cc_match k c); [|reflexivity].
+    rewrite IH by (cbn in L; lia).
+    destruct (match_alt a s) as [[cap r']|]; reflexivity.
+Qed.
+
+Lemma first_alt_app al s rest :
+  forallb (fun a => (length a <=? length s)%nat) al = true ->
+  first_alt al (s ++ rest) =
+  match first_alt al s with Some (cap, r') => Some (cap, r' ++ rest) | None => None end.
+Proof.
+  induction al as [|a al IH]; cbn [first_alt forallb]; [reflexivity|].
+  intros H. apply andb_true_iff in H as [H1 H2].
+  rewrite match_alt_app by (apply Nat.leb_le; auto).
+  destruct (match_alt a s) as [[cap r']|]; auto.
+Qed.
+
+(** A two-character group value [v] is taken whole by the first alternative that matches. *)
+Definition field2_ok (alts : list (list cc)) (v : Z) : bool :=
+  forallb (fun a => (length a <=? 2)%nat) alts &&
+  match first_alt alts (pad2 v) with
+  | Some (cap, []) => str_eqb cap (pad2 v)
+  | _ => false
+  end.
+
+Lemma match_field2 alts v p' rest caps r :
+  field2_ok alts v = true -> match_pat p' rest = Some (caps, r) ->
+  match_pat (IField alts :: p') (pad2 v ++ rest) = Some (pad2 v :: caps, r).
+Proof.
+  unfold field2_ok. intros H K. apply andb_true_iff in H as [H1 H2].
+  cbn [match_pat]. apply try_alts_first with (r0 := rest); auto.
+  rewrite first_alt_app by exact H1.
+  destruct (first_alt alts (pad2 v)) as [[cap [|x r']]|]; try discriminate.
+  apply str_eqb_eq in H2. subst. reflexivity.
+Qed.
+
+Lemma range_check (f : Z -> bool) lo n :
+  forallb (fun i => f (lo + Z.of_nat i)%Z) (seq 0 n) = true ->
+  forall v, (lo <= v < lo + Z.of_nat n)%Z -> f v = true.
+Proof.
+  intros H v Hv. rewrite forallb_forall in H.
+  specialize (H (Z.to_nat (v - lo))).
+  replace (lo + Z.of_nat (Z.to_nat (v - lo)))%Z with v in H by lia.
+  apply H. apply in_seq. lia.
+Qed.
+
+Definition alts_of (i : item) : list (list cc) :=
+  match i with IField a => a | ILit _ => [] end.
+
+Lemma field_m_ok v : (1 <= v <= 12)%Z -> field2_ok (alts_of f_m) v = true.
+Proof. intros H. apply (range_check (field2_ok (alts_of f_m)) 1 12); [vm_compute; reflexivity|lia]. Qed.
+Lemma field_d_ok v : (1 <= v <= 31)%Z -> field2_ok (alts_of f_d) v = true.
+Proof. intros H. apply (range_check (field2_ok (alts_of f_d)) 1 31); [vm_compute; reflexivity|lia]. Qed.
+Lemma field_H_ok v : (0 <= v <= 23)%Z -> field2_ok (alts_of f_H) v = true.
+Proof. intros H. apply (range_check (field2_ok (alts_of f_H)) 0 24); [vm_compute; reflexivity|lia]. Qed.
+Lemma field_M_ok v : (0 <= v <= 59)%Z -> field2_ok (alts_of f_M) v = true.
+Proof. intros H. apply (range_check (field2_ok (alts_of f_M)) 0 60); [vm_compute; reflexivity|lia]. Qed.
+Lemma field_S_ok v : (0 <= v <= 59)%Z -> field2_ok (alts_of f_S) v = true.
+Proof. intros H. apply (range_check (field2_ok (alts_of f_S)) 0 60); [vm_compute; reflexivity|lia]. Qed.
+
+Lemma match_field_Y y p' rest caps r : (0 <= y <= 9999)%Z ->
+  match_pat p' rest = Some (caps, r) ->
+  match_pat (f_Y :: p') (pad4 y ++ rest) = Some (pad4 y :: caps, r).
+Proof.
+  intros H K. unfold f_Y. cbn [match_pat]. apply try_alts_first with (r0 := rest); auto.
+  unfold pad4. cbn [first_alt match_alt app cc_match].
+  rewrite !digit_char_udigit by lia. reflexivity.
+Qed.
+
+Lemma match_lit k c p' s : cc_match k c = true ->
+  match_pat (ILit k :: p') (c :: s) = match_pat p' s.
+Proof. intros H. cbn [match_pat]. rewrite H. reflexivity. Qed.
+
+(** Ranges of a valid date-time. *)
+Lemma valid_dt_bounds t : valid_datetime t = true ->
+  (1 <= dt_month t <= 12 /\ 1 <= dt_day t <= 31 /\ 0 <= dt_hour t <= 23 /\
+   0 <= dt_minute t <= 59 /\ 0 <= dt_second t <= 59)%Z.
+Proof.
+  unfold valid_datetime, valid_date, date_of, valid_time, days_in_month. intros H.
+  pose proof (dim_pos (is_leap (dt_year t)) (dt_month t)). lia.
+Qed.
+
+Section Full.
+  Variable t : datetime.
+  Hypothesis Vt : valid_datetime t = true.
+  Hypothesis Yr : (1 <= dt_year t <= 9999)%Z.
+
+  Let B := valid_dt_bounds t Vt.
+
+  Lemma match_full :
+    match_pat tmpl_full (w3c_full t) =
+    Some ([pad4 (dt_year t); pad2 (dt_month t); pad2 (dt_day t); pad2 (dt_hour t);
+           pad2 (dt_minute t); pad2 (dt_second t)], []).
+  Proof.
+    destruct B as [Bm [Bd [Bh [Bmi Bs]]]].
+    unfold tmpl_full, w3c_full, l_dash, l_colon, l_T.
+    apply match_field_Y; [lia|]. rewrite match_lit by reflexivity.
+    apply (match_field2 (alts_of f_m)); [apply field_m_ok; lia|]. rewrite match_lit by reflexivity.
+    apply (match_field2 (alts_of f_d)); [apply field_d_ok; lia|]. rewrite match_lit by reflexivity.
+    apply (match_field2 (alts_of f_H)); [apply field_H_ok; lia|]. rewrite match_lit by reflexivity.
+    apply (match_field2 (alts_of f_M)); [apply field_M_ok; lia|]. rewrite match_lit by reflexivity.
+    rewrite <- (app_nil_r (pad2 (dt_second t))).
+    apply (match_field2 (alts_of f_S)); [apply field_S_ok; lia|]. reflexivity.
+  Qed.
+
+  (** The shorter templates match a proper prefix only. *)
+  Lemma match_date_prefix rest :
+    match_pat tmpl_date (w3c_date (dt_year t) (dt_month t) (dt_day t) ++ rest) =
+    Some ([pad4 (dt_year t); pad2 (dt_month t); pad2 (dt_day t)], rest).
+  Proof.
+    destruct B as [Bm [Bd _]].
+    unfold tmpl_date, w3c_date, l_dash. rewrite <- !app_assoc. cbn [app].
+    apply match_field_Y; [lia|]. rewrite match_lit by reflexivity.
+    rewrite <- !app_assoc. cbn [app].
+    apply (match_field2 (alts_of f_m)); [apply field_m_ok; lia|]. rewrite match_lit by reflexivity.
+    apply (match_field2 (alts_of f_d)); [apply field_d_ok; lia|]. reflexivity.
+  Qed.
+
+  Lemma match_ym_prefix rest :
+    match_pat tmpl_ym (w3c_ym (dt_year t) (dt_month t) ++ rest) =
+    Some ([pad4 (dt_year t); pad2 (dt_month t)], rest).
+  Proof.
+    destruct B as [Bm _].
+    unfold tmpl_ym, w3c_ym, l_dash. rewrite <- !app_assoc. cbn [app].
+    apply match_field_Y; [lia|]. rewrite match_lit by reflexivity.
+    apply (match_field2 (alts_of f_m)); [apply field_m_ok; lia|]. reflexivity.
+  Qed.
+
+  Lemma match_y_prefix rest :
+    match_pat tmpl_y (pad4 (dt_year t) ++ rest) = Some ([pad4 (dt_year t)], rest).
+  Proof. unfold tmpl_y. apply match_field_Y; [lia|]. reflexivity. Qed.
+End Full.
+
+(** ---- strptime on the W3CDTF forms ---- *)
+
+Lemma mkDT_eta t :
+  mkDT (dt_year t) (dt_month t) (dt_day t) (dt_hour t) (dt_minute t) (dt_second t) = t.
+Proof. destruct t; reflexivity. Qed.
+
+Lemma in_py_range_iff t : in_py_range t = true <-> (1 <= dt_year t <= 9999)%Z.
+Proof. unfold in_py_range. lia. Qed.
+
+Lemma strptime_full t : valid_datetime t = true -> (1 <= dt_year t <= 9999)%Z ->
+  strptime tmpl_full (w3c_full t) = Some t.
+Proof.
+  intros V Y. pose proof (valid_dt_bounds t V) as [Bm [Bd [Bh [Bmi Bs]]]].
+  unfold strptime. rewrite (match_full t V Y).
+  unfold nth_int. cbn [nth_error].
+  rewrite py_int_pad4 by lia. rewrite !py_int_pad2 by lia.
+  rewrite mkDT_eta, V. rewrite (proj2 (in_py_range_iff t) Y). reflexivity.
+Qed.
+
+Lemma valid_date_datetime y m d : valid_date (y, m, d) = true ->
+  valid_datetime (mkDT y m d 0 0 0) = true.
+Proof. intros V. unfold valid_datetime, date_of. cbn [dt_year dt_month dt_day dt_hour dt_minute dt_second]. rewrite V. reflexivity. Qed.
+
+Lemma strptime_date y m d : valid_date (y, m, d) = true -> (1 <= y <= 9999)%Z ->
+  strptime tmpl_date (w3c_date y m d) = Some (mkDT y m d 0 0 0).
+Proof.
+  intros V Y. pose proof (valid_date_datetime y m d V) as Vt.
+  pose proof (valid_dt_bounds _ Vt) as [Bm [Bd _]].
+  cbn [dt_year dt_month dt_day dt_hour dt_minute dt_second] in *.
+  unfold strptime. rewrite <- (app_nil_r (w3c_date y m d)).
+  pose proof (match_date_prefix (mkDT y m d 0 0 0) Vt Y []) as Mp.
+  cbn [dt_year dt_month dt_day] in Mp. rewrite Mp.
+  unfold nth_int. cbn [nth_error].
+  rewrite py_int_pad4 by lia. rewrite !py_int_pad2 by lia.
+  rewrite Vt. unfold in_py_range. cbn [dt_year].
+  destruct ((1 <=? y)%Z && (y <=? 9999)%Z) eqn:E; [reflexivity|lia].
+Qed.
+
+Lemma strptime_ym y m : (1 <= m <= 12)%Z -> (1 <= y <= 9999)%Z ->
+  strptime tmpl_ym (w3c_ym y m) = Some (mkDT y m 1 0 0 0).
+Proof.
+  intros M Y.
+  assert (V : valid_date (y, m, 1%Z) = true).
+  { unfold valid_date, days_in_month. pose proof (dim_pos (is_leap y) m). lia. }
+  pose proof (valid_date_datetime y m 1%Z V) as Vt.
+  unfold strptime. rewrite <- (app_nil_r (w3c_ym y m)).
+  pose proof (match_ym_prefix (mkDT y m 1 0 0 0) Vt Y []) as Mp.
+  cbn [dt_year dt_month dt_day] in Mp. rewrite Mp.
+  unfold nth_int. cbn [nth_error].
+  rewrite py_int_pad4 by lia. rewrite !py_int_pad2 by lia.
+  rewrite Vt. unfold in_py_range. cbn [dt_year].
+  destruct ((1 <=? y)%Z && (y <=? 9999)%Z) eqn:E; [reflexivity|lia].
+Qed.
+
+Lemma strptime_y y : (1 <= y <= 9999)%Z ->
+  strptime tmpl_y (pad4 y) = Some (mkDT y 1 1 0 0 0).
+Proof.
+  intros Y.
+  assert (Vt : valid_datetime (mkDT y 1 1 0 0 0) = true) by (apply valid_date_datetime; reflexivity).
+  unfold strptime. rewrite <- (app_nil_r (pad4 y)).
+  pose proof (match_y_prefix (mkDT y 1 1 0 0 0) Y []) as Mp.
+  cbn [dt_year dt_month dt_day] in Mp. rewrite Mp.
+  unfold nth_int. cbn [nth_error].
+  rewrite py_int_pad4 by lia.
+  rewrite Vt. unfold in_py_range. cbn [dt_year].
+  destruct ((1 <=? y)%Z && (y <=? 9999)%Z) eqn:E; [reflexivity|lia].
+Qed.
+
+(** A shorter template applied to a longer form leaves text unconsumed: ValueError. *)
+Lemma strptime_leftover tmpl s caps c rest :
+  match_pat tmpl s = Some (caps, c :: rest) -> strptime tmpl s = None.
+Proof. intros H. unfold strptime. rewrite H. reflexivity. Qed.
+
+Lemma w3c_full_split t :
+  w3c_full t = w3c_date (dt_year t) (dt_month t) (dt_day t) ++
+               c_T :: pad2 (dt_hour t) ++ c_colon :: pad2 (dt_minute t) ++ c_colon :: pad2 (dt_second t).
+Proof. reflexivity. Qed.
+Lemma w3c_date_split y m d : w3c_date y m d = w3c_ym y m ++ c_dash :: pad2 d.
+Proof. reflexivity. Qed.
+Lemma w3c_ym_split y m : w3c_ym y m = pad4 y ++ c_dash :: pad2 m.
+Proof. reflexivity. Qed.
+
+Section Shorter.
+  Variable t : datetime.
+  Hypothesis Vt : valid_datetime t = true.
+  Hypothesis Yr : (1 <= dt_year t <= 9999)%Z.
+
+  Lemma strptime_date_on_full : strptime tmpl_date (w3c_full t) = None.
+  Proof. rewrite w3c_full_split. eapply strptime_leftover. apply (match_date_prefix t Vt Yr). Qed.
+
+  Lemma strptime_ym_on_full : strptime tmpl_ym (w3c_full t) = None.
+  Proof.
+    rewrite w3c_full_split, w3c_date_split, <- app_assoc. cbn [app].
+    eapply strptime_leftover. apply (match_ym_prefix t Vt Yr).
+  Qed.
+
+  Lemma strptime_y_on_full : strptime tmpl_y (w3c_full t) = None.
+  Proof.
+    rewrite w3c_full_split, w3c_date_split, w3c_ym_split, <- !app_assoc. cbn [app].
+    eapply strptime_leftover. apply (match_y_prefix t Yr).
+  Qed.
+
+  Lemma strptime_ym_on_date :
+    strptime tmpl_ym (w3c_date (dt_year t) (dt_month t) (dt_day t)) = None.
+  Proof. rewrite w3c_date_split. eapply strptime_leftover. apply (match_ym_prefix t Vt Yr). Qed.
+
+  Lemma strptime_y_on_date :
+    strptime tmpl_y (w3c_date (dt_year t) (dt_month t) (dt_day t)) = None.
+  Proof.
+    rewrite w3c_date_split, w3c_ym_split, <- !app_assoc. cbn [app].
+    eapply strptime_leftover. apply (match_y_prefix t Yr).
+  Qed.
+
+  Lemma strptime_y_on_ym : strptime tmpl_y (w3c_ym (dt_year t) (dt_month t)) = None.
+  Proof. rewrite w3c_ym_split. eapply strptime_leftover. apply (match_y_prefix t Yr). Qed.
+End Shorter.
+
+(** ---- _parse_W3CDTF_to_datetime ---- *)
+
+Lemma firstn_full t z : firstn 19 (w3c_full t ++ z) = w3c_full t.
+Proof. reflexivity. Qed.
+Lemma skipn_full t z : skipn 19 (w3c_full t ++ z) = z.
+Proof. reflexivity. Qed.
+
+Lemma templates_on_full t : valid_datetime t = true -> (1 <= dt_year t <= 9999)%Z ->
+  fold_left (fun acc tm => match strptime tm (w3c_full t) with Some x => Some x | None => acc end)
+            templates None = Some t.
+Proof.
+  intros V Y. unfold templates. cbn [fold_left].
+  rewrite (strptime_full t V Y), (strptime_date_on_full t V Y), (strptime_ym_on_full t V Y),
+          (strptime_y_on_full t Y). reflexivity.
+Qed.
+
+(** Complete date plus time, followed by anything that is not six characters long
+    (nothing, Z, a fraction with Z ...): the wall-clock time as written. *)
+Lemma parse_full_other t z : valid_datetime t = true -> (1 <= dt_year t <= 9999)%Z ->
+  length z <> 6%nat -> parse_w3cdtf (w3c_full t ++ z) = Ok t.
+Proof.
+  intros V Y L. unfold parse_w3cdtf. rewrite firstn_full, skipn_full.
+  rewrite (templates_on_full t V Y).
+  destruct (Nat.eqb_spec (length z) 6); [contradiction|reflexivity].
+Qed.
+
+Lemma offset_dt_spec t neg hh mm : (0 <= hh <= 99)%Z -> (0 <= mm <= 99)%Z ->
+  offset_dt t (off_str neg hh mm) =
+  let r := add_seconds t (- off_seconds neg hh mm) in
+  if in_py_range r then Ok r else Err OverflowErr.
+Proof.
+  intros H M. unfold off_str, pad2, offset_dt. cbn [app].
+  rewrite !digit_char_val by lia.
+  destruct neg.
+  - change ((c_dash =? 43)%N) with false. change ((c_dash =? 45)%N) with true.
+    change ((c_colon =? 58)%N) with true. cbv beta iota zeta. cbn [orb andb]. cbv beta iota.
+    match goal with |- context [add_seconds t ?x] =>
+      replace x with (- off_seconds true hh mm)%Z by (unfold off_seconds; lia) end.
+    reflexivity.
+  - change ((c_plus =? 43)%N) with true.
+    change ((c_colon =? 58)%N) with true. cbv beta iota zeta. cbn [orb andb]. cbv beta iota.
+    match goal with |- context [add_seconds t ?x] =>
+      replace x with (- off_seconds false hh mm)%Z by (unfold off_seconds; lia) end.
+    reflexivity.
+Qed.
+
+Lemma parse_full_offset t neg hh mm : valid_datetime t = true -> (1 <= dt_year t <= 9999)%Z ->
+  (0 <= hh <= 99)%Z -> (0 <= mm <= 99)%Z ->
+  parse_w3cdtf (w3c_full t ++ off_str neg hh mm) =
+  let r := add_seconds t (- off_seconds neg hh mm) in
+  if in_py_range r then Ok r else Err OverflowErr.
+Proof.
+  intros V Y H M. unfold parse_w3cdtf. rewrite firstn_full, skipn_full.
+  rewrite (templates_on_full t V Y).
+  change (Nat.eqb (length (off_str neg hh mm)) 6) with true. cbv iota.
+  apply offset_dt_spec; auto.
+Qed.
+
+Lemma parse_date y m d : valid_date (y, m, d) = true -> (1 <= y <= 9999)%Z ->
+  parse_w3cdtf (w3c_date y m d) = Ok (mkDT y m d 0 0 0).
+Proof.
+  intros V Y. pose proof (valid_date_datetime y m d V) as Vt.
+  unfold parse_w3cdtf.
+  change (firstn 19 (w3c_date y m d)) with (w3c_date y m d).
+  change (skipn 19 (w3c_date y m d)) with (@nil N).
+  unfold templates. cbn [fold_left].
+  rewrite (strptime_date y m d V Y).
+  pose proof (strptime_ym_on_date (mkDT y m d 0 0 0) Vt Y) as E1.
+  pose proof (strptime_y_on_date (mkDT y m d 0 0 0) Y) as E2.
+  cbn [dt_year dt_month dt_day] in E1, E2. rewrite E1, E2. reflexivity.
+Qed.
+
+Lemma parse_ym y m : (1 <= m <= 12)%Z -> (1 <= y <= 9999)%Z ->
+  parse_w3cdtf (w3c_ym y m) = Ok (mkDT y m 1 0 0 0).
+Proof.
+  intros M Y.
+  assert (V : valid_date (y, m, 1%Z) = true).
+  { unfold valid_date, days_in_month. pose proof (dim_pos (is_leap y) m). lia. }
+  pose proof (valid_date_datetime y m 1%Z V) as Vt.
+  unfold parse_w3cdtf.
+  change (firstn 19 (w3c_ym y m)) with (w3c_ym y m).
+  change (skipn 19 (w3c_ym y m)) with (@nil N).
+  unfold templates. cbn [fold_left].
+  pose proof (strptime_y_on_ym (mkDT y m 1 0 0 0) Y) as E1.
+  cbn [dt_year dt_month dt_day] in E1. rewrite (strptime_ym y m M Y), E1. reflexivity.
+Qed.
+
+Lemma parse_y y : (1 <= y <= 9999)%Z -> parse_w3cdtf (pad4 y) = Ok (mkDT y 1 1 0 0 0).
+Proof.
+  intros Y. unfold parse_w3cdtf.
+  change (firstn 19 (pad4 y)) with (pad4 y).
+  change (skipn 19 (pad4 y)) with (@nil N).
+  unfold templates. cbn [fold_left].
+  rewrite (strptime_y y Y). reflexivity.
+Qed.
+
+(** strftime for years from 1000 is the four-digit form followed by Z. *)
+Lemma strftime_full t : (1000 <= dt_year t <= 9999)%Z -> strftime t = w3c_full t ++ [c_Z].
+Proof.
+  intros Y. unfold strftime, w3c_full. rewrite show_year_pad4 by auto.
+  rewrite <- !app_assoc. cbn [app]. reflexivity.
+Qed.
+
+Lemma parse_strftime t : valid_datetime t = true -> (1000 <= dt_year t <= 9999)%Z ->
+  parse_w3cdtf (strftime t) = Ok t.
+Proof.
+  intros V Y. rewrite strftime_full by auto.
+  apply parse_full_other; auto; [lia|discriminate].
+Qed.
+
+(** ---- the element as an association list ---- *)
+
+Definition tag_pres (f : child -> child) : Prop := forall c, c_tag (f c) = c_tag c.
+
+Lemma has_tag_pres f q c : tag_pres f -> has_tag q (f c) = has_tag q c.
+Proof. intros T. unfold has_tag. rewrite T. reflexivity. Qed.
+
+Lemma has_tag_new p q : has_tag q (new_child p) = prop_eqb q p.
+Proof. reflexivity. Qed.
+
+Lemma has_tag_both p q c : has_tag p c = true -> has_tag q c = true -> p = q.
+Proof.
+  unfold has_tag. destruct (c_tag c) as [r|n]; [|discriminate].
+  intros A B. apply prop_eqb_eq in A, B. congruence.
+Qed.
+
+Lemma find_upd_other p q f st : tag_pres f -> p <> q ->
+  find_child (upd p f st) q = find_child st q.
+Proof.
+  intros T N. unfold find_child. induction st as [|c st IH]; cbn [upd find].
+  - rewrite has_tag_pres, has_tag_new by auto. rewrite prop_eqb_neq by congruence. reflexivity.
+  - destruct (has_tag p c) eqn:Hp; cbn [find].
+    + rewrite has_tag_pres by auto.
+      destruct (has_tag q c) eqn:Hq; [exfalso; apply N; eapply has_tag_both; eauto|reflexivity].
+    + rewrite IH. reflexivity.
+Qed.
+
+Definition cur_child (st : cpstate) (p : prop) : child :=
+  match find_child st p with Some c => c | None => new_child p end.
+
+Lemma find_upd_same p f st : tag_pres f ->
+  find_child (upd p f st) p = Some (f (cur_child st p)).
+Proof.
+  intros T. unfold find_child, cur_child, find_child.
+  induction st as [|c st IH]; cbn [upd find].
+  - rewrite has_tag_pres, has_tag_new, prop_eqb_refl by auto. reflexivity.
+  - destruct (has_tag p c) eqn:Hp; cbn [find].
+    + rewrite has_tag_pres, Hp by auto. reflexivity.
+    + rewrite Hp. exact IH.
+Qed.
+
+Lemma tag_pres_text s : tag_pres (set_c_text s).
+Proof. intros c; reflexivity. Qed.
+Lemma tag_pres_same : tag_pres same_child.
+Proof. intros c; reflexivity. Qed.
+Lemma tag_pres_dt s b : tag_pres (fun c => mkChild (c_tag c) s (c_xsi c || b)).
+Proof. intros c; reflexivity. Qed.
+
+(** Every setter leaves the state alone or goes through [upd] on its own tag with a
+    tag-preserving modification. *)
+Lemma set_prop_shape p v st :
+  fst (set_prop p v st) = st \/
+  exists f, tag_pres f /\ fst (set_prop p v st) = upd p f st.
+Proof.
+  unfold set_prop, set_text, set_datetime, set_revision.
+  destruct (kind_of p) eqn:K.
+  - destruct (py_str v); [|left; reflexivity].
+    destruct (255 <? length a)%nat; [left; reflexivity|].
+    destruct (forallb xml_ok a); right; eexists; split; [apply tag_pres_text|reflexivity|apply tag_pres_text|reflexivity].
+  - destruct v; try (left; reflexivity).
+    right; eexists; split; [apply tag_pres_dt|reflexivity].
+  - assert (p = Revision) by (destruct p; try discriminate; reflexivity). subst p.
+    destruct v; try (left; reflexivity).
+    + destruct (z <? 1)%Z; [left; reflexivity|].
+      destruct (py_str_int z); right; eexists; split; [apply tag_pres_text|reflexivity|apply tag_pres_same|reflexivity].
+    + destruct b; [|left; reflexivity].
+      right; eexists; split; [apply tag_pres_text|reflexivity].
+Qed.
+
+Lemma get_prop_find st st' q :
+  find_child st' q = find_child st q -> get_prop st' q = get_prop st q.
+Proof.
+  intros E. unfold get_prop, get_text, get_datetime, get_revision.
+  destruct (kind_of q) eqn:K; try rewrite E; try reflexivity.
+  assert (q = Revision) by (destruct q; try discriminate; reflexivity). subst q.
+  rewrite E. reflexivity.
+Qed.
+
+(** Frame: assigning one property (successfully or not) leaves the other 14 readings alone. *)
+Lemma frame p q v st : p <> q -> get_prop (fst (set_prop p v st)) q = get_prop st q.
+Proof.
+  intros N. apply get_prop_find.
+  destruct (set_prop_shape p v st) as [E|[f [T E]]]; rewrite E; [reflexivity|].
+  apply find_upd_other; auto.
+Qed.
+
+(** ---- strings ---- *)
+
+Lemma set_text_ok p s st : kind_of p = KText -> (length s <= 255)%nat -> forallb xml_ok s = true ->
+  set_prop p (VStr s) st = (upd p (set_c_text s) st, Ok tt).
+Proof.
+  intros K L X. unfold set_prop. rewrite K. unfold set_text. cbn [py_str].
+  destruct (Nat.ltb_spec 255 (length s)); [lia|]. rewrite X. reflexivity.
+Qed.
+
+Lemma text_roundtrip p s st : kind_of p = KText -> (length s <= 255)%nat -> forallb xml_ok s = true ->
+  snd (set_prop p (VStr s) st) = Ok tt /\
+  get_prop (fst (set_prop p (VStr s) st)) p = Ok (OStr s).
+Proof.
+  intros K L X. rewrite set_text_ok by auto. split; [reflexivity|].
+  cbn [fst]. unfold get_prop. rewrite K. unfold get_text.
+  rewrite find_upd_same by apply tag_pres_text. reflexivity.
+Qed.
+
+Lemma text_limit p s st : kind_of p = KText -> (255 < length s)%nat ->
+  set_prop p (VStr s) st = (st, Err ValueErr).
+Proof.
+  intros K L. unfold set_prop. rewrite K. unfold set_text. cbn [py_str].
+  destruct (Nat.ltb_spec 255 (length s)); [reflexivity|lia].
+Qed.
+
+(** ---- datetimes ---- *)
+
+Lemma valid_pydt_parts d : valid_pydt d = true ->
+  valid_datetime (p_dt d) = true /\ (1 <= dt_year (p_dt d) <= 9999)%Z.
+Proof.
+  unfold valid_pydt. intros H. do 3 (apply andb_true_iff in H as [H ?]).
+  apply andb_true_iff in H as [H Hr].
+  split; auto. apply in_py_range_iff; auto.
+Qed.
+
+Lemma get_after_set_dt p d st : kind_of p = KDate ->
+  get_prop (fst (set_prop p (VDt d) st)) p =
+  match parse_w3cdtf (strftime (p_dt d)) with
+  | Ok t => Ok (ODt (Some t))
+  | Err ValueErr => Ok (ODt None)
+  | Err e => Err e
+  end.
+Proof.
+  intros K. unfold set_prop. rewrite K. unfold set_datetime. cbn [fst].
+  unfold get_prop. rewrite K. unfold get_datetime.
+  rewrite find_upd_same by apply tag_pres_dt. cbn [c_text].
+  destruct (parse_w3cdtf (strftime (p_dt d))) as [t|[]]; reflexivity.
+Qed.
+
+Lemma date_roundtrip p d st : kind_of p = KDate -> valid_pydt d = true ->
+  (1000 <= dt_year (p_dt d))%Z ->
+  snd (set_prop p (VDt d) st) = Ok tt /\
+  get_prop (fst (set_prop p (VDt d) st)) p = Ok (ODt (Some (p_dt d))).
+Proof.
+  intros K V Y. destruct (valid_pydt_parts d V) as [Vt Yr].
+  split.
+  - unfold set_prop. rewrite K. reflexivity.
+  - rewrite get_after_set_dt by auto. rewrite parse_strftime by (auto; lia). reflexivity.
+Qed.
+
+Lemma date_type p v st : kind_of p = KDate -> (forall d, v <> VDt d) ->
+  set_prop p v st = (st, Err ValueErr).
+Proof.
+  intros K N. unfold set_prop. rewrite K. unfold set_datetime.
+  destruct v; try reflexivity. exfalso. apply (N d). reflexivity.
+Qed.
+
+(** ---- revision ---- *)
+
+Definition dec_len (z : Z) : N := N.of_nat (length (dec_of_N (Z.abs_N z))).
+
+Lemma py_str_int_pos z : (1 <= z)%Z -> (dec_len z <= 4300)%N ->
+  py_str_int z = Ok (dec_of_N (Z.to_N z)).
+Proof.
+  intros P L. unfold py_str_int, dec_len in *. unfold max_str_digits.
+  destruct (N.ltb_spec 4300 (N.of_nat (length (dec_of_N (Z.abs_N z))))); [lia|].
+  destruct (Z.ltb_spec z 0); [lia|]. f_equal. f_equal. lia.
+Qed.
+
+Lemma py_int_dec n : (N.of_nat (length (dec_of_N n)) <= 4300)%N ->
+  py_int (dec_of_N n) = Some (Z.of_N n).
+Proof.
+  intros L. destruct (dec_of_N_spec n) as [A [B C]].
+  rewrite py_int_digits by auto. rewrite C. reflexivity.
+Qed.
+
+Lemma revision_roundtrip z st : (1 <= z)%Z -> (dec_len z <= 4300)%N ->
+  snd (set_prop Revision (VInt z) st) = Ok tt /\
+  get_prop (fst (set_prop Revision (VInt z) st)) Revision = Ok (OInt z).
+Proof.
+  intros P L. unfold set_prop. cbn [kind_of]. unfold set_revision.
+  destruct (Z.ltb_spec z 1); [lia|]. rewrite py_str_int_pos by auto.
+  split; [reflexivity|]. cbn [fst]. unfold get_prop. cbn [kind_of]. unfold get_revision.
+  rewrite find_upd_same by apply tag_pres_text. cbn [c_text set_c_text].
+  rewrite py_int_dec.
+  - destruct (Z.ltb_spec (Z.of_N (Z.to_N z)) 0); [lia|]. f_equal. f_equal. lia.
+  - unfold dec_len in L. replace (Z.to_N z) with (Z.abs_N z) by lia. exact L.
+Qed.
+
+Definition rev_acceptable (v : pyv) : bool :=
+  match v with
+  | VInt z => (1 <=? z)%Z
+  | VBool b => b
+  | _ => false
+  end.
+
+Lemma revision_reject v st : rev_acceptable v = false ->
+  set_prop Revision v st = (st, Err ValueErr).
+Proof.
+  unfold set_prop. cbn [kind_of]. unfold set_revision, rev_acceptable.
+  destruct v; try reflexivity.
+  - intros H. destruct (Z.ltb_spec z 1); [reflexivity|lia].
+  - intros ->. reflexivity.
+Qed.
+
+Lemma revision_read st :
+  get_prop st Revision =
+  Ok (OInt match find_child st Revision with
+           | None => 0%Z
+           | Some c => match py_int (c_text c) with
+                       | Some z => if (z <? 0)%Z then 0%Z else z
+                       | None => 0%Z
+                       end
+           end).
+Proof. reflexivity. Qed.
+
+(** ---- histories ---- *)
+
+Definition op := (prop * pyv)%type.
+
+Definition run (ops : list op) (st : cpstate) : cpstate :=
+  fold_left (fun s o => fst (set_prop (fst o) (snd o) s)) ops st.
+
+(** Assignments the property statement says must be accepted ... *)
+Definition goodb (o : op) : bool :=
+  match kind_of (fst o), snd o with
+  | KText, VStr s => (length s <=? 255)%nat && forallb xml_ok s
+  | KDate, VDt d => valid_pydt d && (1000 <=? dt_year (p_dt d))%Z
+  | KRev, VInt z => (1 <=? z)%Z && (dec_len z <=? 4300)%N
+  | _, _ => false
+  end.
+
+(** ... and assignments it says must be refused. *)
+Definition rejb (o : op) : bool :=
+  match kind_of (fst o), snd o with
+  | KText, VStr s => (255 <? length s)%nat
+  | KDate, VDt _ => false
+  | KDate, _ => true
+  | KRev, v => negb (rev_acceptable v)
+  | _, _ => false
+  end.
+
+Definition reading_of (v : pyv) : outv :=
+  match v with
+  | VStr s => OStr s
+  | VDt d => ODt (Some (p_dt d))
+  | VInt z => OInt z
+  | _ => OStr []
+  end.
+
+Lemma good_set_get o st : goodb o = true ->
+  snd (set_prop (fst o) (snd o) st) = Ok tt /\
+  get_prop (fst (set_prop (fst o) (snd o) st)) (fst o) = Ok (reading_of (snd o)).
+Proof.
+  destruct o as [p v]. unfold goodb. cbn [fst snd].
+  destruct (kind_of p) eqn:K; destruct v; try discriminate; intros H;
+    apply andb_true_iff in H as [H1 H2]; cbn [reading_of].
+  - apply text_roundtrip; auto. apply Nat.leb_le; auto.
+  - apply date_roundtrip; auto. lia.
+  - assert (p = Revision) by (destruct p; try discriminate; reflexivity). subst p.
+    apply revision_roundtrip; lia.
+Qed.
+
+Lemma rej_unchanged o st : rejb o = true ->
+  set_prop (fst o) (snd o) st = (st, Err ValueErr).
+Proof.
+  destruct o as [p v]. unfold rejb. cbn [fst snd].
+  destruct (kind_of p) eqn:K.
+  - destruct v; try discriminate. intros H. apply text_limit; auto. apply Nat.ltb_lt; auto.
+  - intros H. apply date_type; auto. intros d ->. discriminate.
+  - assert (p = Revision) by (destruct p; try discriminate; reflexivity). subst p.
+    intros H. apply revision_reject. apply negb_true_iff; auto.
+Qed.
+
+(** The value of the last accepted assignment to [q], if any. *)
+Definition last_good (ops : list op) (q : prop) : option pyv :=
+  fold_left (fun acc o => if goodb o && prop_eqb (fst o) q then Some (snd o) else acc) ops None.
+
+Lemma history ops : forall st q,
+  Forall (fun o => goodb o || rejb o = true) ops ->
+  get_prop (run ops st) q =
+  match last_good ops q with Some v => Ok (reading_of v) | None => get_prop st q end.
+Proof.
+  induction ops as [|o ops IH] using rev_ind; intros st q F.
+  - reflexivity.
+  - apply Forall_app in F as [F1 F2]. inversion F2 as [|? ? Ho _]; subst.
+    unfold run, last_good. rewrite !fold_left_app. cbn [fold_left].
+    fold (run ops st). fold (last_good ops q).
+    specialize (IH st q F1).
+    destruct (goodb o) eqn:G.
+    + cbn [andb]. destruct (prop_eqb (fst o) q) eqn:E.
+      * apply prop_eqb_eq in E. subst q. apply good_set_get; auto.
+      * rewrite frame; auto. intros Heq. rewrite Heq, prop_eqb_refl in E. discriminate.
+    + cbn [orb andb] in *. rewrite rej_unchanged by auto. cbn [fst]. exact IH.
+Qed.
+
+(** ---- validity ---- *)
+
+Lemma has_tag_true p c : has_tag p c = true -> c_tag c = TProp p.
+Proof.
+  unfold has_tag. destruct (c_tag c) as [q|n]; [|discriminate].
+  intros H. apply prop_eqb_eq in H. congruence.
+Qed.
+
+Lemma count_upd p q f st : tag_pres f ->
+  count_tag q (upd p f st) =
+  (count_tag q st + if prop_eqb q p && Nat.eqb (count_tag p st) 0 then 1 else 0)%nat.
+Proof.
+  intros T. unfold count_tag. induction st as [|c st IH]; cbn [upd filter length].
+  - rewrite has_tag_pres, has_tag_new by auto. cbn [Nat.eqb]. rewrite andb_true_r.
+    destruct (prop_eqb q p); reflexivity.
+  - destruct (has_tag p c) eqn:Hp; cbn [filter].
+    + rewrite has_tag_pres by auto. cbn [length Nat.eqb]. rewrite andb_false_r. destruct (has_tag q c); cbn [length]; lia.
+    + destruct (has_tag q c); cbn [length]; rewrite IH; lia.
+Qed.
+
+Lemma forallb_upd (g : child -> bool) p f st :
+  forallb g st = true -> (forall c, c_tag c = TProp p -> g (f c) = true) ->
+  forallb g (upd p f st) = true.
+Proof.
+  intros H G. induction st as [|c st IH]; cbn [upd forallb].
+  - rewrite G by reflexivity. reflexivity.
+  - cbn [forallb] in H. apply andb_true_iff in H as [H1 H2].
+    destruct (has_tag p c) eqn:Hp; cbn [forallb].
+    + rewrite G by (apply has_tag_true; auto). rewrite H2. reflexivity.
+    + rewrite H1, IH by auto. reflexivity.
+Qed.
+
+Lemma valid_upd p f st : tag_pres f -> valid_cp st = true ->
+  (forall c, c_tag c = TProp p -> child_ok (f c) = true) ->
+  valid_cp (upd p f st) = true.
+Proof.
+  intros T V G. unfold valid_cp in *. apply andb_true_iff in V as [V1 V2].
+  apply andb_true_iff. split; [apply forallb_upd; auto|].
+  rewrite forallb_forall in *. intros q Hq. specialize (V2 q Hq).
+  rewrite count_upd by auto.
+  destruct (prop_eqb q p) eqn:E; cbn [andb].
+  - apply prop_eqb_eq in E. subst q. destruct (count_tag p st) as [|[|n]]; cbn in *; auto; discriminate.
+  - rewrite Nat.add_0_r. exact V2.
+Qed.
+
+Lemma two_digits_pad v : (0 <= v <= 99)%Z ->
+  two_digits (digit_char (v / 10)) (digit_char (v mod 10)) = Some v.
+Proof.
+  intros H. unfold two_digits. rewrite !digit_char_is_digit by lia. cbn [andb].
+  f_equal. unfold digit_char. lia.
+Qed.
+
+Lemma collapse_id c m x : xml_space c = false -> xml_space x = false ->
+  collapse_ws ((c :: m) ++ [x]) = (c :: m) ++ [x].
+Proof.
+  intros Hc Hx. unfold collapse_ws. set (s := (c :: m) ++ [x]).
+  assert (D1 : drop_while xml_space s = s) by (subst s; cbn [app]; apply drop_while_hd; auto).
+  rewrite D1.
+  assert (R : rev s = x :: rev (c :: m)) by (subst s; apply rev_unit).
+  rewrite R. rewrite drop_while_hd by auto. rewrite <- R. apply rev_involutive.
+Qed.
+
+Lemma digit_not_xml_space v : (0 <= v <= 9)%Z -> xml_space (digit_char v) = false.
+Proof. unfold xml_space, digit_char. lia. Qed.
+
+Lemma dec_value_pad4 y : (0 <= y <= 9999)%Z -> dec_value (pad4 y) = Z.to_N y.
+Proof.
+  intros H. unfold dec_value, pad4, digit_char. cbn [fold_left]. lia.
+Qed.
+
+Lemma xsd_year_pad4 y rest : (1 <= y <= 9999)%Z ->
+  xsd_year (pad4 y ++ c_dash :: rest) = Some (y, c_dash :: rest).
+Proof.
+  intros H. unfold xsd_year.
+  assert (Hd : forallb is_digit (pad4 y) = true) by (apply pad4_digits; lia).
+  assert (N45 : (digit_char (y / 1000) =? 45)%N = false) by (unfold digit_char; lia).
+  cbv zeta.
+  match goal with |- context [take_while is_digit ?b] =>
+    assert (Hb : b = pad4 y ++ c_dash :: rest)
+      by (unfold pad4; cbn [app]; rewrite N45; reflexivity);
+    rewrite !Hb end.
+  rewrite take_while_app_stop, drop_while_app_stop by (auto; reflexivity).
+  change (length (pad4 y)) with 4%nat. cbn [Nat.ltb Nat.leb andb].
+  rewrite dec_value_pad4 by lia.
+  destruct (Z.eqb_spec (Z.of_N (Z.to_N y)) 0); [lia|]. f_equal. f_equal. lia.
+Qed.
+
+Lemma xsd_dateTime_strftime t : valid_datetime t = true -> (1000 <= dt_year t <= 9999)%Z ->
+  xsd_dateTime (strftime t) = true.
+Proof.
+  intros V Y. pose proof (valid_dt_bounds t V) as [Bm [Bd [Bh [Bmi Bs]]]].
+  rewrite strftime_full by auto. unfold xsd_dateTime.
+  assert (E : w3c_full t ++ [c_Z] =
+    (digit_char (dt_year t / 1000) ::
+       ([digit_char (dt_year t / 100 mod 10); digit_char (dt_year t / 10 mod 10); digit_char (dt_year t mod 10)] ++
+        c_dash :: pad2 (dt_month t) ++ c_dash :: pad2 (dt_day t) ++ c_T :: pad2 (dt_hour t) ++
+        c_colon :: pad2 (dt_minute t) ++ c_colon :: pad2 (dt_second t))) ++ [c_Z]) by reflexivity.
+  rewrite E. rewrite collapse_id by (try apply digit_not_xml_space; try reflexivity; lia).
+  rewrite <- E. unfold w3c_full. rewrite <- app_assoc, <- app_comm_cons.
+  rewrite xsd_year_pad4 by lia.
+  unfold pad2, c_dash, c_T, c_colon. cbn [app].
+  unfold xsd_month_day. rewrite !two_digits_pad by lia.
+  unfold valid_datetime, date_of in V. apply andb_true_iff in V as [Vd Vt]. rewrite Vd.
+  unfold xsd_time. rewrite !two_digits_pad by lia.
+  cbn [andb]. 
+  assert (R : ((dt_hour t <=? 23) && (dt_minute t <=? 59) && (dt_second t <=? 59))%Z = true) by lia.
+  rewrite R. reflexivity.
+Qed.
+
+Lemma child_ok_text p s b : kind_of p <> KDate -> child_ok (mkChild (TProp p) s b) = true.
+Proof. destruct p; cbn; try reflexivity; congruence. Qed.
+
+Lemma child_ok_date p t b : kind_of p = KDate -> valid_datetime t = true ->
+  (1000 <= dt_year t <= 9999)%Z ->
+  child_ok (mkChild (TProp p) (strftime t) (b || needs_xsi p)) = true.
+Proof.
+  intros K V Y. pose proof (xsd_dateTime_strftime t V Y) as X.
+  destruct p; try discriminate; unfold child_ok; cbn [c_tag c_text c_xsi needs_xsi].
+  - rewrite orb_true_r. unfold w3cdtf_ok. rewrite X. apply orb_true_r.
+  - exact X.
+  - rewrite orb_true_r. unfold w3cdtf_ok. rewrite X. apply orb_true_r.
+Qed.
+
+(** Every assignment keeps a valid part valid, accepted or not, except a datetime whose
+    year is below 1000. *)
+Lemma valid_step p v st : valid_cp st = true ->
+  (forall d, v = VDt d -> kind_of p = KDate -> valid_pydt d = true /\ (1000 <= dt_year (p_dt d))%Z) ->
+  valid_cp (fst (set_prop p v st)) = true.
+Proof.
+  intros V G. unfold set_prop, set_text, set_datetime, set_revision.
+  destruct (kind_of p) eqn:K.
+  - destruct (py_str v); [|exact V]. destruct (255 <? length a)%nat; [exact V|].
+    destruct (forallb xml_ok a); cbn [fst]; apply valid_upd; auto using tag_pres_text;
+      intros c Hc; unfold set_c_text; rewrite Hc; apply child_ok_text; congruence.
+  - destruct v; try exact V. cbn [fst]. destruct (G d eq_refl eq_refl) as [Vd Y].
+    destruct (valid_pydt_parts d Vd) as [Vt Yr].
+    apply valid_upd; auto using tag_pres_dt. intros c Hc. rewrite Hc.
+    apply child_ok_date; auto. lia.
+  - assert (p = Revision) by (destruct p; try discriminate; reflexivity). subst p.
+    destruct v; try exact V.
+    + destruct (z <? 1)%Z; [exact V|].
+      destruct (py_str_int z); cbn [fst]; apply valid_upd; auto using tag_pres_text, tag_pres_same;
+        intros c Hc; unfold set_c_text, same_child; [rewrite Hc; reflexivity|].
+      unfold child_ok. rewrite Hc. reflexivity.
+    + destruct b; [|exact V]. cbn [fst]. apply valid_upd; auto using tag_pres_text.
+      intros c Hc. unfold set_c_text. rewrite Hc. reflexivity.
+Qed.
+
+Definition date_guard (o : op) : Prop :=
+  forall d, snd o = VDt d -> kind_of (fst o) = KDate ->
+            valid_pydt d = true /\ (1000 <= dt_year (p_dt d))%Z.
+
+Lemma valid_history ops : forall st, valid_cp st = true -> Forall date_guard ops ->
+  valid_cp (run ops st) = true.
+Proof.
+  induction ops as [|o ops IH]; intros st V F; [exact V|].
+  inversion F as [|? ? Ho Fr]; subst. cbn [run fold_left]. apply IH; auto.
+  apply valid_step; auto.
+Qed.
+
+(** ---- default part ---- *)
+
+Lemma default_part_readings now : valid_pydt now = true -> (1000 <= dt_year (p_dt now))%Z ->
+  forall q, get_prop (default_part now) q =
+    match q with
+    | Title => Ok (OStr s_default_title)
+    | LastModifiedBy => Ok (OStr s_python_pptx)
+    | Revision => Ok (OInt 1)
+    | Modified => Ok (ODt (Some (p_dt now)))
+    | Created | LastPrinted => Ok (ODt None)
+    | _ => Ok (OStr [])
+    end.
+Proof.
+  intros V Y q.
+  change (default_part now) with
+    (run [(Title, VStr s_default_title); (LastModifiedBy, VStr s_python_pptx);
+          (Revision, VInt 1); (Modified, VDt now)] []).
+  assert (G : goodb (Modified, VDt now) = true).
+  { unfold goodb. cbn [fst snd kind_of]. rewrite V. lia. }
+  rewrite history.
+  - unfold last_good. cbn [fold_left]. rewrite G. destruct q; reflexivity.
+  - repeat constructor; try reflexivity. rewrite G. reflexivity.
+Qed.
+
+Lemma default_part_valid now : valid_pydt now = true -> (1000 <= dt_year (p_dt now))%Z ->
+  valid_cp (default_part now) = true.
+Proof.
+  intros V Y.
+  change (default_part now) with
+    (run [(Title, VStr s_default_title); (LastModifiedBy, VStr s_python_pptx);
+          (Revision, VInt 1); (Modified, VDt now)] []).
+  apply valid_history; [reflexivity|].
+  apply Forall_cons; [intros d E K; discriminate|].
+  apply Forall_cons; [intros d E K; discriminate|].
+  apply Forall_cons; [intros d E K; discriminate|].
+  apply Forall_cons; [|apply Forall_nil].
+  intros d E K. cbn [snd] in E. inversion E; subst. auto.
+Qed.
+
+(** ---- reading stored text ---- *)
+
+(** The first child carrying the tag of [p] has text [s]. *)
+Definition stored (st : cpstate) (p : prop) (s : str) : Prop :=
+  exists c, find_child st p = Some c /\ c_text c = s.
+
+Lemma read_date st p s : kind_of p = KDate -> stored st p s ->
+  get_prop st p =
+  match parse_w3cdtf s with
+  | Ok t => Ok (ODt (Some t))
+  | Err ValueErr => Ok (ODt None)
+  | Err e => Err e
+  end.
+Proof.
+  intros K [c [F T]]. unfold get_prop. rewrite K. unfold get_datetime. rewrite F, T.
+  destruct (parse_w3cdtf s) as [t|[]]; reflexivity.
+Qed.
+
+Lemma read_offset st p t neg hh mm :
+  kind_of p = KDate -> stored st p (w3c_full t ++ off_str neg hh mm) ->
+  valid_datetime t = true -> (1 <= dt_year t <= 9999)%Z -> (0 <= hh <= 99)%Z -> (0 <= mm <= 99)%Z ->
+  let utc := add_seconds t (- off_seconds neg hh mm) in
+  to_seconds utc = (to_seconds t - off_seconds neg hh mm)%Z /\
+  valid_datetime utc = true /\
+  get_prop st p = if in_py_range utc then Ok (ODt (Some utc)) else Err OverflowErr.
+Proof.
+  intros K S V Y H M utc. split; [|split].
+  - subst utc. rewrite add_seconds_spec. lia.
+  - apply add_seconds_valid.
+  - rewrite (read_date st p _ K S). rewrite parse_full_offset by auto. cbv zeta.
+    fold utc. destruct (in_py_range utc); reflexivity.
+Qed.
+
+Lemma read_full st p t z :
+  kind_of p = KDate -> stored st p (w3c_full t ++ z) -> length z <> 6%nat ->
+  valid_datetime t = true -> (1 <= dt_year t <= 9999)%Z ->
+  get_prop st p = Ok (ODt (Some t)).
+Proof. intros K S L V Y. rewrite (read_date st p _ K S), parse_full_other by auto. reflexivity. Qed.
+
+Lemma read_date_only st p y m d :
+  kind_of p = KDate -> stored st p (w3c_date y m d) -> valid_date (y, m, d) = true ->
+  (1 <= y <= 9999)%Z -> get_prop st p = Ok (ODt (Some (mkDT y m d 0 0 0))).
+Proof. intros K S V Y. rewrite (read_date st p _ K S), parse_date by auto. reflexivity. Qed.
+
+Lemma read_year_month st p y m :
+  kind_of p = KDate -> stored st p (w3c_ym y m) -> (1 <= m <= 12)%Z ->
+  (1 <= y <= 9999)%Z -> get_prop st p = Ok (ODt (Some (mkDT y m 1 0 0 0))).
+Proof. intros K S V Y. rewrite (read_date st p _ K S), parse_ym by auto. reflexivity. Qed.
+
+Lemma read_year st p y :
+  kind_of p = KDate -> stored st p (pad4 y) ->
+  (1 <= y <= 9999)%Z -> get_prop st p = Ok (ODt (Some (mkDT y 1 1 0 0 0))).
+Proof. intros K S Y. rewrite (read_date st p _ K S), parse_y by auto. reflexivity. Qed.
+
+(** ---- package level ---- *)
+
+Lemma core_properties_present st now : core_properties (Some st) now = (Some st, st).
+Proof. reflexivity. Qed.
+
+Lemma core_properties_absent now :
+  core_properties None now = (Some (default_part now), default_part now).
+Proof. reflexivity. Qed.
+
+(** ---- witnesses against the statement ---- *)
+
+Definition dt999 : pydt := mkPydt (mkDT 999 1 2 3 4 5) 0 None.
+
+Lemma date_lt1000_witness :
+  valid_pydt dt999 = true /\
+  snd (set_prop Created (VDt dt999) []) = Ok tt /\
+  get_prop (fst (set_prop Created (VDt dt999) [])) Created = Ok (ODt None) /\
+  valid_cp (fst (set_prop Created (VDt dt999) [])) = false.
+Proof. vm_compute. repeat split. Qed.
+
+(** 2020-02-29T23:59:59+05:00 *)
+Definition dt_aware : pydt := mkPydt (mkDT 2020 2 29 23 59 59) 0 (Some 18000%Z).
+
+Lemma date_tzaware_witness :
+  valid_pydt dt_aware = true /\
+  get_prop (fst (set_prop Created (VDt dt_aware) [])) Created = Ok (ODt (Some (mkDT 2020 2 29 23 59 59))) /\
+  add_seconds (p_dt dt_aware) (-18000) = mkDT 2020 2 29 18 59 59.
+Proof. vm_compute. repeat split. Qed.
+
+Lemma revision_bool_witness :
+  set_prop Revision (VBool true) [] = ([mkChild (TProp Revision) s_True false], Ok tt) /\
+  get_prop (fst (set_prop Revision (VBool true) [])) Revision = Ok (OInt 0).
+Proof. vm_compute. split; reflexivity. Qed.
+
+Definition t2003 : datetime := mkDT 2003 12 31 10 14 55.
+
+(** 2003-12-31T10:14+01:00 : hours and minutes with a zone designator (a W3CDTF granularity) *)
+Lemma minutes_granularity_witness :
+  parse_w3cdtf (w3c_date 2003 12 31 ++ c_T :: pad2 10 ++ c_colon :: pad2 14 ++ off_str false 1 0) = Err ValueErr.
+Proof. vm_compute. reflexivity. Qed.
+
+(** 2003-12-31T10:14:55.5+01:00 : the offset is dropped *)
+Lemma fraction_offset_witness :
+  parse_w3cdtf (w3c_full t2003 ++ [46; 53]%N ++ off_str false 1 0) = Ok t2003 /\
+  add_seconds t2003 (- off_seconds false 1 0) = mkDT 2003 12 31 9 14 55.
+Proof. vm_compute. split; reflexivity. Qed.
+
+(** 2003-12-31T10:14:55.1234Z : a fraction and Z making six characters *)
+Lemma fraction_z_witness :
+  parse_w3cdtf (w3c_full t2003 ++ [46; 49; 50; 51; 52; 90]%N) = Err ValueErr.
+Proof. vm_compute. reflexivity. Qed.
+
+(** 0001-01-01T00:00:00+00:01 : the UTC time is before year 1 *)
+Lemma offset_overflow_witness :
+  parse_w3cdtf (w3c_full (mkDT 1 1 1 0 0 0) ++ off_str false 0 1) = Err OverflowErr.
+Proof. vm_compute. reflexivity. Qed.
+
+(** Refused text (a code point lxml rejects) erases the previous value. *)
+Lemma nonxml_erases_witness :
+  let st := fst (set_prop Title (VStr [97]%N) []) in
+  set_prop Title (VStr [65535]%N) st = ([mkChild (TProp Title) [] false], Err ValueErr).
+Proof. vm_compute. reflexivity. Qed.
+
+(** ---- statements in the form used by props/C18.v ---- *)
+
+Lemma date_lt1000_refuted : exists d : pydt,
+  valid_pydt d = true /\ (dt_year (p_dt d) < 1000)%Z /\
+  snd (set_prop Created (VDt d) []) = Ok tt /\
+  get_prop (fst (set_prop Created (VDt d) [])) Created = Ok (ODt None) /\
+  valid_cp (fst (set_prop Created (VDt d) [])) = false.
+Proof.
+  exists dt999. destruct date_lt1000_witness as [A [B [C D]]].
+  repeat split; auto.
+Qed.
+
+Lemma date_tzaware_refuted : exists (d : pydt) (o : Z),
+  valid_pydt d = true /\ p_tz d = Some o /\ o <> 0%Z /\
+  get_prop (fst (set_prop Created (VDt d) [])) Created = Ok (ODt (Some (p_dt d))) /\
+  add_seconds (p_dt d) (- o) <> p_dt d.
+Proof.
+  exists dt_aware, 18000%Z. destruct date_tzaware_witness as [A [B C]].
+  split; [exact A|]. split; [reflexivity|]. split; [discriminate|]. split; [exact B|].
+  intros H. vm_compute in H. discriminate.
+Qed.
+
+Lemma granularity st p : kind_of p = KDate ->
+  (forall t z, stored st p (w3c_full t ++ z) -> length z <> 6%nat ->
+     valid_datetime t = true -> (1 <= dt_year t <= 9999)%Z ->
+     get_prop st p = Ok (ODt (Some t))) /\
+  (forall y m d, stored st p (w3c_date y m d) -> valid_date (y, m, d) = true -> (1 <= y <= 9999)%Z ->
+     get_prop st p = Ok (ODt (Some (mkDT y m d 0 0 0)))) /\
+  (forall y m, stored st p (w3c_ym y m) -> (1 <= m <= 12)%Z -> (1 <= y <= 9999)%Z ->
+     get_prop st p = Ok (ODt (Some (mkDT y m 1 0 0 0)))) /\
+  (forall y, stored st p (pad4 y) -> (1 <= y <= 9999)%Z ->
+     get_prop st p = Ok (ODt (Some (mkDT y 1 1 0 0 0)))).
+Proof.
+  intros K. repeat split; intros.
+  - eapply read_full; eauto.
+  - eapply read_date_only; eauto.
+  - eapply read_year_month; eauto.
+  - eapply read_year; eauto.
+Qed.
+
+Lemma offset_fraction_refuted : exists (t : datetime) (frac : str),
+  parse_w3cdtf (w3c_full t ++ frac ++ off_str false 1 0) = Ok t /\
+  add_seconds t (- off_seconds false 1 0) <> t.
+Proof.
+  exists t2003, [46; 53]%N. destruct fraction_offset_witness as [A B].
+  split; auto. rewrite B. discriminate.
+Qed.
+
+Lemma revision_bool_refuted :
+  snd (set_prop Revision (VBool true) []) = Ok tt /\
+  get_text (fst (set_prop Revision (VBool true) [])) Revision = s_True /\
+  get_prop (fst (set_prop Revision (VBool true) [])) Revision = Ok (OInt 0).
+Proof. destruct revision_bool_witness as [A B]. rewrite A. repeat split; auto. Qed.
+
+Lemma default_part_spec now :
+  (forall st, core_properties (Some st) now = (Some st, st)) /\
+  core_properties None now = (Some (default_part now), default_part now) /\
+  (valid_pydt now = true -> (1000 <= dt_year (p_dt now))%Z ->
+   valid_cp (default_part now) = true /\
+   forall q, get_prop (default_part now) q =
+     match q with
+     | Title => Ok (OStr s_default_title)
+     | LastModifiedBy => Ok (OStr s_python_pptx)
+     | Revision => Ok (OInt 1)
+     | Modified => Ok (ODt (Some (p_dt now)))
+     | Created | LastPrinted => Ok (ODt None)
+     | _ => Ok (OStr [])
+     end).
+Proof.
+  split; [reflexivity|]. split; [reflexivity|].
+  intros V Y. split; [apply default_part_valid|apply default_part_readings]; auto.
+Qed.
+
+Lemma calendar_inverse :
+  (forall dt, valid_date dt = true -> civil_of_ordinal (ordinal dt) = dt) /\
+  (forall n, valid_date (civil_of_ordinal n) = true /\ ordinal (civil_of_ordinal n) = n).
+Proof. split; [exact civil_ordinal|exact civil_of_ordinal_spec]. Qed.
+
+Lemma add_seconds_char t k :
+  to_seconds (add_seconds t k) = (to_seconds t + k)%Z /\ valid_datetime (add_seconds t k) = true /\
+  (forall u, valid_datetime u = true -> to_seconds u = (to_seconds t + k)%Z -> u = add_seconds t k).
+Proof.
+  split; [apply add_seconds_spec|]. split; [apply add_seconds_valid|].
+  intros u Vu E. apply to_seconds_inj; auto using add_seconds_valid.
+  rewrite add_seconds_spec. exact E.
 Qed.
